@@ -67,7 +67,10 @@ Call(st, o, g) ==
                     ELSE [st.v EXCEPT !.a1 = g, !.r = IF o THEN 0 ELSE @]      \* the runner clears the call's output variable when the call starts
            s1 == RunBlock(1, struct[0].end, Tick([st EXCEPT !.v = entry, !.depth = @ + 1, !.infn = TRUE, !.sig = "norm", !.hasrv = FALSE, !.rv = 0]))
            base == IF IsScoped THEN st.v ELSE s1.v
-           after == IF o THEN [base EXCEPT !.r = IF s1.hasrv THEN s1.rv ELSE (IF IsScoped THEN base.r ELSE 0)] ELSE base
+           \* no value: a <scope> call leaves the caller's r as it was; otherwise r is what the body left in it (it was
+           \* cleared when the call started; only the recorded programs of leg C have bodies that assign r: "setr")
+           \* (a bare `return` deletes the output variable itself)
+           after == IF o THEN [base EXCEPT !.r = IF s1.hasrv THEN s1.rv ELSE (IF IsScoped THEN base.r ELSE IF s1.sig = "ret" THEN 0 ELSE s1.v.r)] ELSE base
            open_corner == IsScoped /\ o /\ ~s1.hasrv /\ st.v.r # 0
        IN [s1 EXCEPT !.v = after, !.sig = "norm", !.depth = st.depth, !.infn = st.infn, !.dc = (s1.dc \/ open_corner),
                      !.rv = s1.rv, !.hasrv = s1.hasrv]
@@ -76,16 +79,19 @@ RunBlock(lo, hi, st) ==
   ELSE LET ln == prog[lo+1] IN
     CASE ln.cmd = "emit" -> RunBlock(lo+1, hi, Tick([st EXCEPT !.trace = Append(@, EmitRec(lo, st))]))
       [] ln.cmd = "dec"  -> RunBlock(lo+1, hi, Tick([st EXCEPT !.v.c = IF @ > 0 THEN @ - 1 ELSE 0]))
+      [] ln.cmd = "setr" -> RunBlock(lo+1, hi, Tick([st EXCEPT !.v.r = 9]))      \* r = set 9 : a body-local assignment to the name of the output variable
       [] ln.cmd = "fn"   -> RunBlock(struct[lo].end + 1, hi, Tick(st))
       [] ln.cmd = "ret"  -> Tick([st EXCEPT !.sig = "ret", !.rv = IF ln.a THEN st.v.a1 ELSE 0, !.hasrv = ln.a])    \* return ${1}: the value differs between calls
-      [] ln.cmd = "call" -> RunBlock(lo+1, hi, Call(st, ln.out, ln.arg))
+      \* (the value a nested call returned belongs to that call: it is not the value of the call around it)
+      [] ln.cmd = "call" -> LET s2 == Call(st, ln.out, ln.arg) IN RunBlock(lo+1, hi, [s2 EXCEPT !.hasrv = st.hasrv, !.rv = st.rv])
       [] ln.cmd = "if" ->
            LET s == struct[lo]
                bodyEnd == IF s.els # 0 THEN s.els ELSE s.end
                s0 == IF ln.a = "call" THEN Call(st, FALSE, ln.arg) ELSE st
                t == IF ln.a = "call" THEN s0.hasrv ELSE Truth(ln.a, st.v.c)       \* a call as condition: truthy iff it returned a value (its argument)
-               s1 == IF t THEN RunBlock(lo+1, bodyEnd, Tick(s0))
-                     ELSE IF s.els # 0 THEN RunBlock(s.els+1, s.end, Tick(s0)) ELSE Tick(s0)
+               s0r == [s0 EXCEPT !.hasrv = st.hasrv, !.rv = st.rv]
+               s1 == IF t THEN RunBlock(lo+1, bodyEnd, Tick(s0r))
+                     ELSE IF s.els # 0 THEN RunBlock(s.els+1, s.end, Tick(s0r)) ELSE Tick(s0r)
            IN RunBlock(s.end + 1, hi, s1)
       [] ln.cmd = "for" -> RunBlock(struct[lo].end + 1, hi, RunFor(lo, 1, Tick(st)))
       [] OTHER -> st
